@@ -1,0 +1,12 @@
+//go:build !verif
+
+// Package verifhook provides instrumentation points used only by external
+// verification tooling. Without the "verif" build tag every function here is
+// an empty inlineable no-op.
+package verifhook
+
+// Enabled reports whether hooks are compiled in.
+const Enabled = false
+
+// At marks an instrumentation point. No-op without the verif build tag.
+func At(point string, kv ...any) {}
